@@ -460,6 +460,58 @@ func runC17(c *Ctx) {
 				}
 			}
 		}
+		// conversely: on every path that has found the context fired (ctx.Err() != nil) and nothing transferred
+		// (n == 0), the error returned is the context's own error - not a cause, a wrapped or a different error
+		isCtxErr := func(v ssa.Value) bool {
+			cl, ok := origin(v).(*ssa.Call)
+			return ok && cl.Call.IsInvoke() && cl.Call.Method.Name() == "Err" && cl.Call.Value.Type().String() == "context.Context"
+		}
+		if ps, pok := enumPathsU(F, 6000); pok {
+			flagged := map[token.Pos]bool{}
+			for i := range ps {
+				pp := &ps[i]
+				ret, isRet := pp.last().(*ssa.Return)
+				if !isRet || pp.indexOf(s.IO) < 0 || len(ret.Results) == 0 {
+					continue
+				}
+				fired, zero := false, false
+				ci := 0
+				for j, in := range pp.Instrs {
+					if _, isIf := in.(*ssa.If); !isIf {
+						continue
+					}
+					my := ci
+					ci++
+					if my >= len(pp.Conds) {
+						break
+					}
+					ft := pp.Conds[my]
+					if v, eq, ok := nilCmpOf(ft.Cond); ok {
+						if isCtxErr(pp.valueAt(v, j)) && eq != ft.Val {
+							fired = true
+						}
+						continue
+					}
+					if cm, ok := normCmp(ft.Cond, ft.Val); ok {
+						x, y := pp.valueAt(cm.X, j), pp.valueAt(cm.Y, j)
+						switch {
+						case cm.Op == token.EQL && ((x == nVal && isConstZero(y)) || (y == nVal && isConstZero(x))):
+							zero = true
+						case cm.Op == token.LEQ && x == nVal && isConstZero(y), cm.Op == token.GEQ && y == nVal && isConstZero(x):
+							zero = true
+						}
+					}
+				}
+				if !fired || !zero {
+					continue
+				}
+				ev := pp.valueAt(ret.Results[len(ret.Results)-1], len(pp.Instrs)-1)
+				if !isCtxErr(ev) && !flagged[ret.Pos()] {
+					flagged[ret.Pos()] = true
+					o.Fail(ret.Pos(), "with the context fired and nothing transferred, the operation does not return the context's error (ctx.Err()) but another value (%s)", ev.String())
+				}
+			}
+		}
 		if ctxErr == nil {
 			o.Fail(F.Pos(), "%s never reports the context's error", fname(F))
 		} else if !domU(s.IO, ctxErr) {
